@@ -67,3 +67,12 @@ Example C17_nonvacuous :
   policy_check (PZxcvbn {| p_kind := KEntropy; p_thr := 40 |}) {| z_score := 2; z_entropy := FNum 5 3; z_time := FInf |} = true /\
   policy_check (PZxcvbn {| p_kind := KEntropy; p_thr := 41 |}) {| z_score := 2; z_entropy := FNum 5 3; z_time := FInf |} = false.
 Proof. vm_compute. auto 6. Qed.
+
+(* ---- the model's state space is the code's declared state ----
+   (theories/StateInst.v: package-level variables and struct fields listed by tools/facts on every
+   run; the models keep no state between operations other than these components) *)
+From Whawty Require StateInst.
+Theorem C17_agent_state_inventory : StateInst.agent_state_inventory.
+Proof. exact StateInst.agent_state_inventory_holds. Qed.
+Theorem C17_policy_state_inventory : StateInst.policy_state_inventory.
+Proof. exact StateInst.policy_state_inventory_holds. Qed.
